@@ -175,3 +175,47 @@ def c06_merkle_commits_every_tx(ctx, v):
             seen += 1
         v.covers_total += 1
         v.covers_sat += 1 if seen else 0
+
+
+def c06_merkle_root_recomputed(ctx, v):
+    """Block::generate_merkle_root for a block that carries transactions (1..=2 in memory), for
+    every combination of the is_browser / is_spv flags: the value returned comes from
+    MerkleTree::generate over the block's own transaction list (root of the tree, or zeros when
+    there is no tree) — it is never just the header's merkle_root field read back, which would
+    turn the commitment comparison of Block::validate into a comparison of the header with
+    itself.  (Only a block with no transactions in memory may answer with the stored root.)"""
+    body = ctx.body(r"block::<impl at [^>]*>::generate_merkle_root$")
+    n_ok = 0
+    for n in (1, 2):
+        ex = ctx.executor(loop_bound=4, inline="auto", no_inline=[r"MerkleTree::", r"to_hex", r"fmt"])
+        ex.pure = [r".*"]
+        root = ex.fresh_value("[u8; 32]", "header.merkle_root")
+        txs = S.Seq([ctx.mk_struct(ex, "Transaction", "tx%d" % i) for i in range(n)], "Transaction")
+        blk = ctx.mk_struct(ex, "Block", "block", merkle_root=root, transactions=txs)
+        is_browser, is_spv = z3.Bool("is_browser"), z3.Bool("is_spv")
+        outs = ex.run(body, [S.Ref(S.Cell(blk)), is_browser, is_spv], S.State())
+        v.paths += len(outs)
+        for o in outs:
+            if o.kind in ("unsupported", "unwound", "path-limit"):
+                return v.undecided("%s %s" % (o.kind, o.info))
+            if o.kind != "return":
+                continue
+            gen = [e for e in o.events if e[0] == "call" and re.search(r"MerkleTree::generate$", e[1])]
+            v.queries += 1
+            if not gen:
+                r, m = ex.model_for(o.pc)
+                if r == z3.sat:
+                    v.fail("generate_merkle_root answers for a block carrying %d transaction(s) without building the merkle tree (is_browser=%s, is_spv=%s)" %
+                           (n, m.eval(is_browser, model_completion=True), m.eval(is_spv, model_completion=True)))
+                continue
+            res = o.value
+            if isinstance(res, S.Bytes) and not ex.feasible(o.pc, z3.Not(_same32(res, root))):
+                v.fail("generate_merkle_root returns the header's own merkle_root field for a block carrying transactions")
+                continue
+            n_ok += 1
+    v.covers_total += 1
+    v.covers_sat += 1 if n_ok else 0
+
+
+def _same32(a, b):
+    return z3.And(*[z3.Select(a.arr, z3.BitVecVal(i, 64)) == z3.Select(b.arr, z3.BitVecVal(i, 64)) for i in range(32)])
